@@ -24,6 +24,9 @@ def cases(tier, seed):
         base = common.thin(base, 2)
         buf = common.thin(buf, 3)
         plan = common.thin(plan, 3)
+    else:
+        base = common.thin(base, 2)
+        plan = common.thin(plan, 2)
     for sc, c in common.add_algs(base + buf + plan,
                                  lambda c: common.shipped(c, lvl, "diag")):
         c = dict(c)
